@@ -343,6 +343,10 @@ def run(ctx):
 
 SELFTEST = {
     "faults": [
+        {"name": "out-of-window AVZ pulse returned before the odd-length fix-up (generic new-exit rule)", "file": "pyrex/askaryan.py",
+         "old": "                trace = np.zeros(len(trace), dtype=trace.dtype)\n            else:\n                long_trace = np.concatenate((trace, np.zeros(len(trace))))\n                trace = np.roll(long_trace, shift)[:len(trace)]",
+         "new": "                return np.zeros(len(trace), dtype=trace.dtype)\n            long_trace = np.concatenate((trace, np.zeros(len(trace))))\n            trace = np.roll(long_trace, shift)[:len(trace)]",
+         "rule": "R07w"},
         {"name": "lower bound of the hadronic width chain dropped", "file": "pyrex/askaryan.py", "old": "            if (epsilon >= 0 and epsilon <= 2):", "new": "            if (epsilon <= 2):",
          "rule": "R07g"},
         {"name": "1/R^2", "file": "pyrex/askaryan.py", "old": "            e_omega /= viewing_distance\n", "new": "            e_omega /= viewing_distance**2\n", "rule": "R07a", "construct": "ZHS"},
